@@ -98,13 +98,14 @@ BADLINES = ["bogus rax", "mov [rax], [rbx]", "add rax, rxx", "lea rax, [rsp+rsp]
 OPTSENS = ["mov rax, 0x5", "mov rax, 0x0000000000000005", "lea rcx, [rax+rsp]", "lea rcx, [2*rax]", "mov rdx, 1234", "lea rcx, [4*rdx+0x10]",
            "add qword [rax+rsp], 5", "add qword [2*rax], 5", "mov dword [2*rcx], 100", "imul rax, [rbx+rsp], 10", "add qword [rax+rsp], 0x5", "cmp byte [8*rdx], 7",
            "lea rcx, [1*rax]", "mov rcx, [1*rdx]", "add qword [1*r12+0x10], 5", "lea rcx, [1*rax+0x10]", "push qword [r9+rsp]", "call [2*r9]", "vpxor ymm0, ymm1, [2*r9]",
-           "mulx rax, rbx, [1*r13]", "bextr rax, [r9+rsp], rbx"]
+           "mulx rax, rbx, [1*r13]", "bextr rax, [r9+rsp], rbx", "lea rcx, [r12+rsp]", "add qword [r12+rsp+0x10], 5", "mov ecx, [r12d+esp]", "lea rcx, [r13+rsp]", "mov rcx, [rbp+rsp]"]
 # the option dimensions each of these lines may depend on (C12: one dimension never changes what another one governs)
 DIMS = {"mov rax, 0x5": ["mov"], "mov rax, 0x0000000000000005": ["mov"], "lea rcx, [rax+rsp]": ["swap"], "lea rcx, [2*rax]": ["nobase"], "mov rdx, 1234": ["mov"],
         "lea rcx, [4*rdx+0x10]": ["nobase"], "add qword [rax+rsp], 5": ["swap"], "add qword [2*rax], 5": ["nobase"], "mov dword [2*rcx], 100": ["nobase"],
         "imul rax, [rbx+rsp], 10": ["swap"], "add qword [rax+rsp], 0x5": ["swap"], "cmp byte [8*rdx], 7": ["nobase"],
         "lea rcx, [1*rax]": ["nobase"], "mov rcx, [1*rdx]": ["nobase"], "add qword [1*r12+0x10], 5": ["nobase"], "lea rcx, [1*rax+0x10]": ["nobase"],
-        "push qword [r9+rsp]": ["swap"], "call [2*r9]": ["nobase"], "vpxor ymm0, ymm1, [2*r9]": ["nobase"], "mulx rax, rbx, [1*r13]": ["nobase"], "bextr rax, [r9+rsp], rbx": ["swap"]}
+        "push qword [r9+rsp]": ["swap"], "call [2*r9]": ["nobase"], "vpxor ymm0, ymm1, [2*r9]": ["nobase"], "mulx rax, rbx, [1*r13]": ["nobase"], "bextr rax, [r9+rsp], rbx": ["swap"],
+        "lea rcx, [r12+rsp]": ["swap"], "add qword [r12+rsp+0x10], 5": ["swap"], "mov ecx, [r12d+esp]": ["swap"], "lea rcx, [r13+rsp]": ["swap"], "mov rcx, [rbp+rsp]": ["swap"]}
 
 
 class Lines:
@@ -149,7 +150,9 @@ def hx(text):
     return text.encode("latin-1").hex() or "-"
 
 
-SEPS = ["\n", "\r\n", "\r", "\n\n", "\n \t\n", " ; note\n", "\n; note\n", "\r\r", "\n\r", " ; note\r", "\r; note\r", " % m\r", " ;\r", "\r\n; note\r\n"]
+SEPS = ["\n", "\r\n", "\r", "\n\n", "\n \t\n", " ; note\n", "\n; note\n", "\r\r", "\n\r", " ; note\r", "\r; note\r", " % m\r", " ;\r", "\r\n; note\r\n",
+        # header lines and comments that mention them, between two instruction lines (they emit nothing and concern no other line)
+        "\nsection .text\n", "\nglobal _start\n", " ; see section 2\n", "\nSECTION .data\r\n", "\n; global note\n", "\n  Global  f ; x\n"]
 
 
 class Script:
